@@ -1077,7 +1077,10 @@ Example pp_ex_lexes :
 Proof. vm_compute. reflexivity. Qed.
 
 Example pp_ex_atoms_ok : atoms_ok pp_ex_oracle pp_ex_value.
-Proof. cbn. repeat split; try (left; reflexivity); try (right; reflexivity); try discriminate; eexists; reflexivity. Qed.
+Proof.
+  cbn. repeat split; try (left; reflexivity); try (right; reflexivity); try discriminate;
+    try (intros a Ha; injection Ha as <-; reflexivity); eexists; reflexivity.
+Qed.
 Example pp_ex_denotes : denote pp_ex_oracle pp_ex_value = Some pp_ex_out.
 Proof. vm_compute. reflexivity. Qed.
 Example pp_ex_atoms_lexable : Forall atom_lexable (pv_atoms pp_ex_value).
